@@ -53,24 +53,31 @@ FORMULAS = {
     "y~C(A)+center(x)": ("'y ~ C(A) + center(x)'", ["y", "C(A)", "center(x)"], "y+C(A)+center(x)", ("structured", "stateful", "C")),
     "kw(y;x+A)": ("Formula(lhs='y', rhs='x + A')", ["y", "x", "A"], "x+A+y", ("structured",)),
     "tuple(x;A+y)": ("('x', 'A + y')", ["x", "A", "y"], "x+A+y", ("structured",)),
+    # c: a numeric vector supplied through the evaluation context (as list / tuple / ndarray / Series)
+    "x+c": ("'x + c'", ["x", "c"], None, ("ctx",)),
+    "c+A+y": ("'c + A + y'", ["c", "A", "y"], None, ("ctx",)),
+    "c:x+y": ("'c:x + y'", ["c", "x", "y"], None, ("ctx",)),
+    "y~x+c": ("'y ~ x + c'", ["y", "x", "c"], "x+c+y", ("structured", "ctx")),
+    "x+c+y": ("'x + c + y'", ["x", "c", "y"], None, ("ctx",)),
     "x+y": ("'x + y'", ["x", "y"], None, ()),
     "y": ("'y'", ["y"], None, ()),
     "y+C(A)+center(x)": ("'y + C(A) + center(x)'", ["y", "C(A)", "center(x)"], None, ("stateful", "C")),
 }
 # formulas enumerated by the cross driver (the last three only serve as flat counterparts)
-CROSS_FORMULAS = [f for f in FORMULAS if f not in ("x+y", "y", "y+C(A)+center(x)")]
+CROSS_FORMULAS = [f for f in FORMULAS if f not in ("x+y", "y", "y+C(A)+center(x)", "x+c+y")]
+CTX_KINDS = ("list", "tuple", "ndarray", "series")
 
 # entry points: source of an expression over SPEC, df, clean, NA, OUT, S
 ENTRIES = {
-    "model_matrix": "model_matrix(SPEC, df, na_action=NA, output=OUT, drop_rows=S)",
-    "Formula.get_model_matrix": "Formula(SPEC).get_model_matrix(df, na_action=NA, output=OUT, drop_rows=S)",
-    "spec.get_model_matrix": "ModelSpec.from_spec(SPEC, na_action=NA, output=OUT).get_model_matrix(df, drop_rows=S)",
-    "spec.get_model_matrix(**overrides)": "ModelSpec.from_spec(SPEC).get_model_matrix(df, drop_rows=S, na_action=NA, output=OUT)",
-    "spec.get_model_matrix(ensure_full_rank=False)": "ModelSpec.from_spec(SPEC, na_action=NA, output=OUT).get_model_matrix(df, drop_rows=S, ensure_full_rank=False)",
-    "reused-spec": "model_matrix(SPEC, clean, na_action=NA, output=OUT).model_spec.get_model_matrix(df, drop_rows=S)",
-    "reused-spec(**overrides)": "model_matrix(SPEC, clean).model_spec.get_model_matrix(df, drop_rows=S, na_action=NA, output=OUT)",
-    "PandasMaterializer": "formulaic.materializers.PandasMaterializer(df).get_model_matrix(SPEC, drop_rows=S, na_action=NA, output=OUT)",
-    "NarwhalsMaterializer": "formulaic.materializers.NarwhalsMaterializer(df).get_model_matrix(SPEC, drop_rows=S, na_action=NA, output=OUT)",
+    "model_matrix": "model_matrix(SPEC, df, context=CTX, na_action=NA, output=OUT, drop_rows=S)",
+    "Formula.get_model_matrix": "Formula(SPEC).get_model_matrix(df, context=CTX, na_action=NA, output=OUT, drop_rows=S)",
+    "spec.get_model_matrix": "ModelSpec.from_spec(SPEC, na_action=NA, output=OUT).get_model_matrix(df, context=CTX, drop_rows=S)",
+    "spec.get_model_matrix(**overrides)": "ModelSpec.from_spec(SPEC).get_model_matrix(df, context=CTX, drop_rows=S, na_action=NA, output=OUT)",
+    "spec.get_model_matrix(ensure_full_rank=False)": "ModelSpec.from_spec(SPEC, na_action=NA, output=OUT).get_model_matrix(df, context=CTX, drop_rows=S, ensure_full_rank=False)",
+    "reused-spec": "model_matrix(SPEC, clean, context=CC, na_action=NA, output=OUT).model_spec.get_model_matrix(df, context=CTX, drop_rows=S)",
+    "reused-spec(**overrides)": "model_matrix(SPEC, clean, context=CC).model_spec.get_model_matrix(df, context=CTX, drop_rows=S, na_action=NA, output=OUT)",
+    "PandasMaterializer": "formulaic.materializers.PandasMaterializer(df, context=CTX).get_model_matrix(SPEC, drop_rows=S, na_action=NA, output=OUT)",
+    "NarwhalsMaterializer": "formulaic.materializers.NarwhalsMaterializer(df, context=CTX).get_model_matrix(SPEC, drop_rows=S, na_action=NA, output=OUT)",
 }
 OVERRIDE_NEUTRAL = {
     "spec.get_model_matrix(**overrides)": "spec.get_model_matrix",
@@ -89,7 +96,7 @@ def _call(entry):
     fn = _CALLS.get(entry)
     if fn is None:
         env = {}
-        exec(K.PRELUDE + f"def call(SPEC, df, clean, NA, OUT, S):\n    return {ENTRIES[entry]}\n", env)
+        exec(K.PRELUDE + f"def call(SPEC, df, clean, NA, OUT, S, CTX, CC):\n    return {ENTRIES[entry]}\n", env)
         fn = _CALLS[entry] = env["call"]
     return fn
 
@@ -142,6 +149,29 @@ def factor_nulls(fname, df, reuse, clean=None):
     return N
 
 
+def split_masks(masks):
+    """(mx, mA, my, cx): cx = None or (container kind, null mask) of the context-supplied column c"""
+    return (masks[0], masks[1], masks[2], masks[3] if len(masks) > 3 else None)
+
+
+def ctx_values(n, mask):
+    """values of the context column c: pairwise distinct, so they pin down the row they belong to"""
+    return [None if (mask >> i) & 1 else 1000.5 + 7.0 * i for i in range(n)]
+
+
+def ctx_code(n, cx, name="CTX", frame="df"):
+    """source of the context dict: the vector c in the requested container type"""
+    if cx is None:
+        return f"{name} = {{}}\n"
+    kind, mask = cx
+    vals = ctx_values(n, mask)
+    lit = "[" + ", ".join("None" if v is None else repr(v) for v in vals) + "]"
+    flt = "[" + ", ".join("float('nan')" if v is None else repr(v) for v in vals) + "]"
+    expr = {"list": lit, "tuple": f"tuple({lit})", "ndarray": f"np.array({flt}, dtype=float)",
+            "series": f"pd.Series({flt}, index={frame}.index, dtype=float)"}[kind]
+    return f"{name} = {{'c': {expr}}}\n"
+
+
 def _symptom_exc(e):
     return f"exception {type(e).__name__}"
 
@@ -150,13 +180,28 @@ def run_one(case):
     """Execute one case on the real code and judge it.  Returns (nontrivial, [(clause, symptom, detail)]).
     case = (n, (mx, mA, my), index_kind, text_dtype, formula, na, (skind, extra), entry, output)"""
     n, masks, ik, td, fname, na, (skind, extra), entry, out = case
-    mx, mA, my = masks
+    mx, mA, my, cx = split_masks(masks)
     df = K.build(K.frame_code(n, {"x": mx, "A": mA, "y": my}, ik, td))
     reuse = entry in REUSE
     clean = K.build(K.frame_code(n, {"x": 0, "A": 0, "y": 0}, ik, td), "df") if reuse else None
+    env = {"np": np, "pd": pd, "df": df, "clean": clean}
+    exec(ctx_code(n, cx, "CTX", "df") + (ctx_code(n, (cx[0], 0) if cx else None, "CC", "clean") if reuse else "CC = None\n"), env)
+    ctx_obj, ctx_clean = env["CTX"], env["CC"]
+    if cx is not None:
+        # oracle side: the raw context vector as one more column of the frame the oracle looks at
+        df = df.copy()
+        df["c"] = np.array([np.nan if v is None else v for v in ctx_values(n, cx[1])], dtype=float)
+        if clean is not None:
+            clean = clean.copy()
+            clean["c"] = np.array(ctx_values(n, 0), dtype=float)
     N = factor_nulls(fname, df, reuse, clean)
     if N is None:
         return False, [], True
+    if cx is not None:
+        df_call = df.drop(columns=["c"])
+        clean_call = clean.drop(columns=["c"]) if clean is not None else None
+    else:
+        df_call, clean_call = df, clean
     S = make_S(skind, n, extra)
     S0 = set(S) if S is not None else set()
     R = N | S0
@@ -167,7 +212,7 @@ def run_one(case):
     with warnings.catch_warnings():
         warnings.simplefilter("ignore")
         try:
-            res = _call(entry)(spec, df, clean, na, out, S)
+            res = _call(entry)(spec, df_call, clean_call, na, out, S, ctx_obj, ctx_clean)
         except Exception as e:  # outcome of the code under test, judged below
             exc = e
     fails = []
@@ -175,7 +220,7 @@ def run_one(case):
         # Is this configuration supported at all?  The same call on the null-free frame, default
         # policy, no caller set must work, otherwise the failure is not a missing-data matter (e.g.
         # lag() on a narwhals series, str columns into a sparse matrix): the case is skipped and counted.
-        base = (n, (0, 0, 0), ik, td, fname, "drop", ("none", None), entry, out)
+        base = (n, (0, 0, 0) + (((cx[0], 0),) if cx else ()), ik, td, fname, "drop", ("none", None), entry, out)
         if case == base:
             return False, [], True
         if run_one(base)[2]:
@@ -249,6 +294,9 @@ def _features(case):
         feats.append("str-dtype")
     if "/" in td:
         feats.append("nullable-numeric-dtype")
+    cx = split_masks(masks)[3]
+    if cx is not None and cx[0] != "ndarray":
+        feats.append(f"context-{cx[0]}")
     return feats
 
 
@@ -269,6 +317,8 @@ def _neutralize(case, feats):
             td = "object" + td[3:]
         elif feat == "nullable-numeric-dtype":
             td = td.partition("/")[0]
+        elif feat.startswith("context-"):
+            masks = tuple(masks[:3]) + (("ndarray", masks[3][1]),)
     return (n, masks, ik, td, fname, na, s, entry, out)
 
 
@@ -277,7 +327,8 @@ def classify(case, clause, symptom):
     one feature neutralised at a time (non-unique index -> unique string labels, hashed(A) ->
     C(A), attribute overrides -> same attributes given at spec construction, structured formula
     -> one-sided formula over the same factors, narwhals -> pandas materializer, str dtype ->
-    object dtype, nullable Int64/Float64 numeric columns -> float64).  'a&b': removing any one of them makes the clause hold (all needed);
+    object dtype, nullable Int64/Float64 numeric columns -> float64, context-supplied list / tuple /
+    Series -> numpy array).  'a&b': removing any one of them makes the clause hold (all needed);
     'either(a,b)': only removing all of them together does (each alone suffices to break it)."""
     feats = _features(case)
 
@@ -306,15 +357,21 @@ def classify(case, clause, symptom):
 
 def repro(case, clause):
     n, masks, ik, td, fname, na, (skind, extra), entry, out = case
-    mx, mA, my = masks
+    mx, mA, my, cx = split_masks(masks)
     reuse = entry in REUSE
     df = K.build(K.frame_code(n, {"x": mx, "A": mA, "y": my}, ik, td))
     clean = K.build(K.frame_code(n, {"x": 0, "A": 0, "y": 0}, ik, td)) if reuse else None
+    if cx is not None:
+        df["c"] = np.array([np.nan if v is None else v for v in ctx_values(n, cx[1])], dtype=float)
+        if clean is not None:
+            clean["c"] = np.array(ctx_values(n, 0), dtype=float)
     N = sorted(factor_nulls(fname, df, reuse, clean) or ())
     S = make_S(skind, n, extra)
     src = K.PRELUDE
     src += K.frame_code(n, {"x": mx, "A": mA, "y": my}, ik, td)
     src += K.frame_code(n, {"x": 0, "A": 0, "y": 0}, ik, td, name="clean") if reuse else "clean = None\n"
+    src += ctx_code(n, cx, "CTX", "df") + (ctx_code(n, (cx[0], 0) if cx else None, "CC", "clean") if reuse else "CC = None\n")
+    src += f"CVALS = {([np.nan if v is None else v for v in ctx_values(n, cx[1])] if cx else None)!r}".replace("nan", "float('nan')") + "\n"
     src += f"SPEC = {FORMULAS[fname][0]}\nNA, OUT = {na!r}, {out!r}\n"
     src += f"S = {('set()' if S is not None and not S else repr(S))}\nS0 = set(S) if S is not None else set()\n"
     src += f"N = set({N!r})   # positions where an evaluated factor is null (oracle: stand-alone evaluation)\n"
@@ -337,8 +394,9 @@ def repro(case, clause):
         + "        names = list(m.model_spec.column_names)\n"
         "        a = np.asarray(w.todense()) if scipy.sparse.issparse(w) else np.asarray(w)\n"
         "        for j, name in enumerate(names):\n"
-        "            if name in ('x', 'y') and a.shape[1] == len(names):\n"
-        "                exp = df[name].to_numpy(dtype=float, na_value=np.nan)[kept] if kept else np.zeros(0)\n"
+        "            if name in ('x', 'y', 'c') and a.shape[1] == len(names):\n"
+        "                raw = np.array(CVALS, dtype=float) if name == 'c' else df[name].to_numpy(dtype=float, na_value=np.nan)\n"
+        "                exp = raw[kept] if kept else np.zeros(0)\n"
         "                assert np.allclose(a[:, j].astype(float), exp, equal_nan=True), (name, a[:, j].tolist(), 'expected', exp.tolist())\n"
     )
     if na == "drop":
@@ -376,7 +434,8 @@ def repro(case, clause):
 def _describe(case):
     n, masks, ik, td, fname, na, (skind, extra), entry, out = case
     return {
-        "rows": n, "null_masks(x,A,y)": [bin(m) for m in masks], "index": ik, "text_dtype": td,
+        "rows": n, "null_masks(x,A,y)": [bin(m) for m in masks[:3]], "index": ik, "text_dtype": td,
+        "context_column_c": None if len(masks) < 4 else {"container": masks[3][0], "null_mask": bin(masks[3][1])},
         "formula": FORMULAS[fname][0], "na_action": na, "caller_drop_set": skind if skind != "rand" else sorted(extra),
         "entry": entry, "output": out,
     }
@@ -446,6 +505,12 @@ def cross_cases(rng, reps, s_kinds):
             # null density: sparse nulls are the interesting regime (some rows survive)
             p = rng.choice([0.0, 0.15, 0.3, 0.5])
             masks = tuple(sum((rng.random() < p) << i for i in range(n)) for _ in range(3))
+            if "ctx" in FORMULAS[fname][3]:
+                # the context-supplied vector: container type rotates; frames of 4-6 rows so that several rows go
+                n = 4 + (ci + r) % 3
+                p = rng.choice([0.15, 0.3, 0.5])
+                masks = tuple(sum((rng.random() < p) << i for i in range(n)) for _ in range(3))
+                masks += ((CTX_KINDS[(ci + r) % len(CTX_KINDS)], sum((rng.random() < p) << i for i in range(n))),)
             extra = None
             if skind == "rand":
                 extra = sorted(i for i in range(n) if rng.random() < 0.4)
@@ -490,12 +555,12 @@ def run_bounded(ctx):
     s_kinds = S_KINDS + (("rand",) if ctx.thorough else ())
     with ctx.bounded(
         "config-cross",
-        rule=f"full product formula({len(CROSS_FORMULAS)}: one-/two-sided, multi-part, keyword, tuple, C(), hashed(), center/scale, "
+        rule=f"full product formula({len(CROSS_FORMULAS)}: one-/two-sided, with a context-supplied vector, multi-part, keyword, tuple, C(), hashed(), center/scale, "
         "lag, log) x entry point(9: model_matrix, Formula.get_model_matrix, ModelSpec(s).get_model_matrix with "
         "and without attribute overrides, re-used materialized spec with/without overrides, Pandas- and "
         "NarwhalsMaterializer) x caller set(None, empty, {0}, {last}, all"
         + (", random" if ctx.thorough else "")
-        + f") x na_action(3), each with {reps} seeded draws of (rows 1..6, null pattern, index kind, output, text dtype object/category/str, numeric dtype float64 or nullable "
+        + f") x na_action(3), each with {reps} seeded draws of (rows 1..6, null pattern, index kind, output, text dtype object/category/str, container (list / tuple / ndarray / Series) and null pattern of a context-supplied vector, numeric dtype float64 or nullable "
         "Int64/Float64 holding pd.NA -- the latter not under 'ignore'); "
         "non-trivial when at least one row has to go",
         exhaustive=False,
